@@ -426,7 +426,7 @@ macro_rules! wide_rank_assembled {
         }
     };
 }
-// @h props=C06,C04,C10 tier=quick family=A prof=AB mem=6 timeout=1800 role=rswide.rank.assembled
+// @h props=C06,C04:t,C10:t tier=quick family=A prof=A mem=6 timeout=1800 role=rswide.rank.assembled
 // @bound RSWide assembled over any bit vector of 513..=1024 bits (two blocks) with the directory written from its definition: rank1 / rank0 / get laws for every position of the machine range, checked and unchecked
 // @funcs RSWide::rank1, RSWide::rank1_unchecked, RSWide::rank0, RSWide::rank0_unchecked, RSWide::get, RSWide::sub_block_rank, bitvector::DataLine::rank1
 wide_rank_assembled!(c06_wide_rank_assembled_l2, 2);
